@@ -297,7 +297,8 @@ func c13Helper(c *Check, P string, m *MW, d *ssa.Function, site ssa.CallInstruct
 			for _, v := range vals {
 				if IsNilConst(v) {
 					eq, _ := NilEdges(H, FromParam(errP))
-					c.Report(GuardedBy(H, r, eq), P+".O2", "HELPER-RESULT", H, r.Pos(), "return nil", "the helper returns nil without publishing only when there was no error")
+					pubOK, _ := NilEdges(H, func(x ssa.Value) bool { return IsResultOf(x, pb, 0) })
+					c.Report(GuardedBy(H, r, append(append([]Edge{}, eq...), pubOK...)), P+".O2", "HELPER-RESULT", H, r.Pos(), "return nil", "the helper returns nil only when there was no error to poison, or after Publish returned nil")
 				} else {
 					c.Report(IsResultOf(v, pb, 0) || Wraps(v, func(x ssa.Value) bool { return IsResultOf(x, pb, 0) }), P+".O2", "HELPER-RESULT", H, r.Pos(), "return", "the helper returns the Publish error")
 				}
